@@ -116,6 +116,9 @@ static struct mskwajd_header *kwajd_open(struct mskwaj_decompressor *base,
     }
 
     ((struct mskwajd_header_p *) hdr)->fh = fh;
+    /* kwajd_close() frees these; kwajd_read_headers() can fail before it sets them */
+    hdr->filename = NULL;
+    hdr->extra    = NULL;
     if ((err = kwajd_read_headers(sys, fh, hdr))) {
         kwajd_close(base, hdr);
         self->error = err;
